@@ -297,3 +297,30 @@ Proof.
   destruct (series_chunks_spec ivs (snd s) Hs N1) as [S1 _]. rewrite S1.
   unfold spec_samples. apply filter_ext. intro sm. unfold not_covered. rewrite N2. reflexivity.
 Qed.
+
+(* ---- the block read back from disk: series without chunks are not written ---- *)
+Lemma ochunk_wf_nonempty o : ochunk_wf o = true -> snd o <> [].
+Proof. unfold ochunk_wf. destruct (snd o); [discriminate | discriminate]. Qed.
+
+Lemma rewrite_exact_block re reqs ss :
+  Forall series_ok ss -> reqs_ok reqs ->
+  exact_block re reqs ss (filter has_chunks (rewrite re reqs ss)) = true.
+Proof.
+  intros Hss Hr. induction Hss as [|s ss Hs Hss IH]; [reflexivity|].
+  rewrite rewrite_cons, filter_app. cbn [exact_block].
+  destruct (whole_deleted re reqs (fst s)) eqn:W.
+  - apply (del_loop_none re reqs (fst s) []) in W. rewrite W. exact IH.
+  - destruct (del_loop re reqs (fst s) []) as [ivs|] eqn:E; [|apply del_loop_none in E; congruence].
+    destruct (del_loop_norm re reqs (fst s) [] ivs Hr (ex_intro _ 0 I) E) as [N1 N2].
+    destruct (series_chunks_spec ivs (snd s) Hs N1) as [S1 S2].
+    assert (Hf : filter (not_covered ivs) (concat (snd s)) = spec_samples re reqs s).
+    { unfold spec_samples. apply filter_ext. intro sm. unfold not_covered. rewrite N2. reflexivity. }
+    rewrite Hf in S1. cbn [filter has_chunks snd].
+    destruct (series_chunks ivs (snd s)) as [|o ocs] eqn:Eo.
+    + simpl in S1. rewrite <- S1. cbn [filter has_chunks snd app]. exact IH.
+    + cbn [filter has_chunks snd app]. cbn [forallb] in S2. apply andb_true_iff in S2 as [Wo Wr].
+      destruct (spec_samples re reqs s) as [|sm0 sp] eqn:Esp.
+      * exfalso. apply ochunk_wf_nonempty in Wo. simpl in S1.
+        destruct (snd o); [congruence | discriminate].
+      * cbn [fst snd]. rewrite labels_eqb_refl, S1, samples_eqb_refl. cbn [forallb]. rewrite Wo, Wr, IH. reflexivity.
+Qed.
